@@ -234,6 +234,11 @@ def variation_family():
         H([A(), P(0, INT), P(0, INT, S(0), INT), P(0, S(0), BOOL, S(0))], start=2),
         H([A(), P(0, BOOL), P(0, S(0), S(0)), P(0, BOOL, S(1), INT, S(2), BOOL)], start=3),
         H([A(), P(0, FLOAT), P(0, INT, S(0)), P(0, S(0), S(3), S(0)), A(), P(4, BOOL), P(4, INT, S(4), INT)]),
+        # refined fields (C02 after variation and mapping): ranges, sized lists of refined elements, a dependent range
+        H([A(), P(0, ["ann", INT, ["intrange", -2, 2]], ["ann", ["list", ["ann", INT, ["intrange", 7, 9]]], ["listsize", 1, 2, True]]), P(0, S(0), ["ann", INT, ["intlist", [4, 6]]])]),
+        # (no Dependent(...) here: SGE names its genes by str(annotation), which for a lambda contains an address and differs
+        #  from one evaluation of the string annotations to the next - see DESIGN section 5, observed outside the properties)
+        H([A(), P(0, ["ann", INT, ["intrange", 0, 3]], ["ann", INT, ["intlist", [5, 8]]]), P(0, S(0), S(0)), P(0, ["ann", INT, ["intrange", 1, 1]], S(1))], start=3),
         dict(H([A(), P(0, INT), P(0, S(3), S(0), S(0)), A(), P(3, BOOL)]), considered=[0, 1, 2, 3]),     # C3 is mentioned, its only subclass C4 is not supplied
         dict(H([A(), P(0, BOOL), P(0, S(0), S(3)), A(None, True), P(3, INT)]), considered=[0, 1, 2, 3]),
     ]
